@@ -945,7 +945,12 @@ class ConstantReferenceApplier(TreeListener):
 
         if tree.child:
             try:
-                self.extra_symbols[-1][str(tree)] = self.classes[-1].find_constant_symbol(tree)
+                # Copy: the symbol found belongs to the class it is declared in
+                # (possibly in the parsed tree), and is renamed and modified when
+                # the class it is pulled into is flattened.
+                self.extra_symbols[-1][str(tree)] = copy.deepcopy(
+                    self.classes[-1].find_constant_symbol(tree)
+                )
             except (
                 KeyError,
                 ast.ClassNotFoundError,
